@@ -10,7 +10,7 @@ import random
 import z3
 
 from mirsmt import env, stdmodels, native
-from mirsmt.symexec import (Executor, State, VInt, VBool, VStruct, VRef, VSeq, I, simp, Unsupported, int_info)
+from mirsmt.symexec import (Executor, State, VInt, VBool, VStruct, VRef, VSeq, I, simp, Unsupported, int_info, ty_range)
 from mirsmt.env import decide, cross_check, model_int, Inconclusive, now
 
 M_SPEC = 65521          # from the property text
@@ -114,9 +114,22 @@ def get_field(ctx, ty, v, name):
 
 def field_types(ctx, ty):
     """rust types of the fields, from the struct's field projections in `push` MIR locals"""
-    if ty == "RollingChecksum":
-        return {"a": "u32", "b": "u32", "count": "usize"}
-    return {"a": "u64", "b": "u64", "count": "usize", "rolls": "u32"}
+    dflt = {"a": "u32", "b": "u32", "count": "usize"} if ty == "RollingChecksum" else {"a": "u64", "b": "u64", "count": "usize", "rolls": "u32"}
+    key = ("ft", ty)
+    if key not in _FT:
+        try:
+            got = actual_field_types(ctx, ty)
+        except Exception:
+            got = {}
+        _FT[key] = {k: (got.get(k) if got.get(k) and int_info(got.get(k)) else v) for k, v in dflt.items()}
+    return _FT[key]
+
+
+_FT = {}
+
+
+def _unused():
+    return None
 
 
 def actual_field_types(ctx, ty):
@@ -211,7 +224,8 @@ def pre_state(ctx, ex, ty, w, consts):
     qa = z3.Int("qa!%d" % next(ex.fresh))
     qb = z3.Int("qb!%d" % next(ex.fresh))
     ex.assumes += [a == A + M * qa, b == B + M * qb,
-                   a <= (M - 1) + r * inc_a, b <= (M - 1) + r * inc_b]
+                   a <= (M - 1) + r * inc_a, b <= (M - 1) + r * inc_b,
+                   a <= ty_range(ft["a"])[1], b <= ty_range(ft["b"])[1]]       # a field holds a value of its declared type
     return mk_state(ctx, ty, {"a": (a, ft["a"]), "b": (b, ft["b"]), "count": (w["n"], ft["count"]), "rolls": (r, ft["rolls"])}), \
         {"a": a, "b": b, "rolls": r}
 
@@ -278,14 +292,27 @@ def confirm_history(R, oid, ty, ops, window_after, what):
     return {"confirmed": False, "detail": "%s: native run agrees with the definition (model not realised)" % what}
 
 
+STRESS = {"iv": 5000}
+
+
 def stress_histories(n, o, x):
-    """fallback histories for inductive counterexamples whose pre-state needs a long past"""
-    n = max(1, min(n, NMAX))
-    total = n + 12000
+    """fallback histories for inductive counterexamples whose pre-state needs a long past: long slides (longer than
+    two normalisation periods of the code under check) over extremal run patterns, for the model's window length, the
+    largest window and a mid-size one"""
+    iv = max(int(STRESS["iv"]), 1)
     hs = []
-    for (fill, feed) in ((0, 255), (255, 0), (o, x), (255, 255), (x, o)):
-        hs.append({"runs": [[n, fill], [total - n, feed]]})
-    return [(h, n) for h in hs]
+    seen = set()
+    for win in (max(1, min(n, NMAX)), NMAX, 8192, 512):
+        if win in seen:
+            continue
+        seen.add(win)
+        span = max(12000, 2 * iv + 2000)
+        for (fill, feed) in ((0, 255), (255, 0), (o, x), (255, 255), (x, o)):
+            hs.append(({"runs": [[win, fill], [span, feed]]}, win))
+        # three-phase patterns: a long stretch at one level (past a normalisation), then a swing to the other
+        for (hi, lo) in ((255, 0), (0, 255), (248, 8)):
+            hs.append(({"runs": [[win, hi], [iv + 1000, hi], [win + iv + 1000, lo], [win + 1000, hi]]}, win))
+    return hs
 
 
 def confirm_stress(R, oid, ty, n, o, x):
@@ -307,6 +334,7 @@ def step_obligation(ob, ty, op):
     """inductive step for roll / push"""
     ctx, R = ob.ctx, ob.R
     consts = ob.consts(ty)
+    STRESS["iv"] = consts.get("NORMALIZE_INTERVAL", 5000)
     oidp = "C17/%s::%s" % (ty, op)
     functions = ["%s::%s" % (ty, op)]
     bound = "inductive step: any state satisfying the invariant, window length %s, all byte values; full machine width" % (
